@@ -188,3 +188,73 @@ From Bermuda Require Import Model.Base.
 Import ListNotations.
 Local Open Scope Z_scope.
 """
+
+
+# ---------------------------------------------------------------- JSON-able descriptions (replays)
+def _val_to_obj(v):
+    if v is None:
+        return None
+    if isinstance(v, np.ndarray):
+        return {"array": v.tolist(), "dtype": str(v.dtype)}
+    if isinstance(v, (bool, np.bool_)):
+        return {"bool": bool(v)}
+    if isinstance(v, (int, np.integer)):
+        return {"int": int(v)}
+    if isinstance(v, (float, np.floating)):
+        return {"float": float(v)}
+    if isinstance(v, datetime.date):
+        return {"date": v.isoformat()}
+    if isinstance(v, str):
+        return {"str": v}
+    return {"repr": repr(v)}
+
+
+def _val_from_obj(o):
+    if o is None:
+        return None
+    (k, v), = [(k, v) for k, v in o.items() if k != "dtype"]
+    if k == "array":
+        return np.array(v, dtype=o["dtype"])
+    if k == "date":
+        return datetime.date.fromisoformat(v)
+    if k in ("bool", "int", "float", "str"):
+        return {"bool": bool, "int": int, "float": float, "str": str}[k](v)
+    raise ValueError(o)
+
+
+def meta_to_obj(m):
+    return {"risk_basis": m.risk_basis, "country": m.country, "currency": m.currency,
+            "reinsurance_basis": m.reinsurance_basis, "loss_definition": m.loss_definition,
+            "per_occurrence_limit": _val_to_obj(m.per_occurrence_limit),
+            "details": {k: _val_to_obj(v) for k, v in m.details.items()},
+            "loss_details": {k: _val_to_obj(v) for k, v in m.loss_details.items()}}
+
+
+def meta_from_obj(o):
+    from bermuda import Metadata
+
+    return Metadata(risk_basis=o["risk_basis"], country=o["country"], currency=o["currency"],
+                    reinsurance_basis=o["reinsurance_basis"], loss_definition=o["loss_definition"],
+                    per_occurrence_limit=_val_from_obj(o["per_occurrence_limit"]),
+                    details={k: _val_from_obj(v) for k, v in o["details"].items()},
+                    loss_details={k: _val_from_obj(v) for k, v in o["loss_details"].items()})
+
+
+def cell_to_obj(c):
+    prev = getattr(c, "prev_evaluation_date", None)
+    return {"class": type(c).__name__, "period_start": c.period_start.isoformat(),
+            "period_end": c.period_end.isoformat(), "evaluation_date": c.evaluation_date.isoformat(),
+            "prev_evaluation_date": prev.isoformat() if prev else None,
+            "metadata": meta_to_obj(c.metadata), "values": {k: _val_to_obj(v) for k, v in c.values.items()}}
+
+
+def cell_from_obj(o):
+    import bermuda
+
+    D = datetime.date.fromisoformat
+    kw = dict(period_start=D(o["period_start"]), period_end=D(o["period_end"]),
+              evaluation_date=D(o["evaluation_date"]), metadata=meta_from_obj(o["metadata"]),
+              values={k: _val_from_obj(v) for k, v in o["values"].items()})
+    if o["class"] == "IncrementalCell":
+        kw["prev_evaluation_date"] = D(o["prev_evaluation_date"])
+    return getattr(bermuda, o["class"])(**kw)
